@@ -69,6 +69,35 @@ def run_parallel(exe, inputs, workers=2):
     return [r for o in outs for r in o]
 
 
+def build_tool(name, extract_v, src_dirs):
+    """ocamlbuild.build re-extracts on every call (about half a minute per tool); the extracted program depends only on
+    the Coq sources below, so an executable newer than all of them is reused"""
+    exe = os.path.join(vcheck.BUILD, "bin", name + "_model")
+    deps = [os.path.join(vcheck.COQ, extract_v), os.path.join(vcheck.VERIF, "ocaml", "common", "driver.ml")]
+    for d in src_dirs:
+        dd = os.path.join(vcheck.COQ, d)
+        deps += [os.path.join(dd, f) for f in os.listdir(dd) if f.endswith(".v")]
+    try:
+        t = os.path.getmtime(exe)
+        if all(os.path.getmtime(p) < t for p in deps):
+            return exe
+    except OSError:
+        pass
+    return ocamlbuild.build(name)
+
+
+def direct_build(files):
+    """fallback when the shared `make` is disturbed by somebody else's files: compile this property's files with coqc,
+    in dependency order (Base/ and IR/ are built by bin/setup)"""
+    logs = []
+    for f in files:
+        rc, so, se = vcheck.sh(["coqc", "-Q", ".", "Naga", f], cwd=vcheck.COQ, timeout=1500)
+        logs.append(so + se)
+        if rc != 0:
+            return False, [f], "\n".join(logs)
+    return True, [], "\n".join(logs)
+
+
 def norm_msg(msg):
     msg = re.sub(r"(variable|identifier|function|struct|block|global|parameter name|member) [A-Za-z_0-9]+", r"\1 N", msg)
     msg = re.sub(r"\d+", "N", msg)
@@ -268,7 +297,7 @@ class Validator:
             if cls == "type":
                 st["illtyped"] += 1
                 ctx.violation("the GLSL emitted for %s is ill-typed: %s" % (tag, msg), files=files,
-                              key="illtyped:" + norm_msg(msg))
+                              key="illtyped:%s:%s" % (m["name"], norm_msg(msg)))
             elif cls == "ub":
                 if m["own"] and m["mode"] != "zeros_and_negatives":
                     ctx.violation("GLSL-undefined behaviour reached on an input chosen to avoid it, %s: %s (IR run is fine)" % (tag, msg),
@@ -319,7 +348,17 @@ def search_probe_disagreement(ctx, tools, irx, glx, en, limit):
 
 
 def run(ctx):
+    import time
+    stages = {}
+    t0 = time.time()
+
+    def lap(name):
+        nonlocal t0
+        stages[name] = round(time.time() - t0, 1)
+        t0 = time.time()
+    ctx.cov["stage_seconds"] = stages
     tools = vcheck.build_harness(["glsldrive", "goextract", "nagadrive"])
+    lap("build_harness")
     generr = []
 
     def gw():
@@ -330,6 +369,17 @@ def run(ctx):
             return []
     ok, failed, log = vcheck.proof_step(ctx, "Props/C05.v", MODEL_FILES, gen_writer=gw,
                                         extra_obligation_files=["Glsl/OpTable.v", "Glsl/CatalogueProofs.v"])
+    mine = ("Glsl/", "Gen/GlslOpTable", "Props/C05")
+    if not ok and not generr and not any(f.startswith(mine) for f in failed):
+        # the shared Makefile / dependency file was disturbed by files of other properties: build this property's files directly
+        ok, failed, log2 = direct_build(["Glsl/Syntax.v", "Glsl/Ops.v", "Glsl/Sem.v", "Glsl/Decode.v", "Glsl/Catalogue.v",
+                                         "Glsl/CatalogueProofs.v", "Gen/GlslOpTable.v", "Glsl/OpTable.v", "Props/C05.v"])
+        log = log2
+        ctx.cov["make_fallback"] = "shared make failed outside this property's files; compiled directly with coqc"
+        if ok:
+            ctx.cov["discharged"] = ctx.cov["obligations"]
+            ctx.cov["print_assumptions"] = {"Props/C05.v": {"rc": 0, "closed": log.count("Closed under the global context"),
+                                                            "axioms": vcheck.assumptions_from_log(log)}}
     ctx.cov["trusted_base"] += [
         "axioms under every C05 theorem come from Flocq/Reals through Base/F32.v (binary32 operations referenced by the GLSL evaluator): "
         "ClassicalDedekindReals.sig_forall_dec, ClassicalDedekindReals.sig_not_dec, FunctionalExtensionality.functional_extensionality_dep "
@@ -357,9 +407,11 @@ def run(ctx):
         broken = "Coq development no longer checks (operator-table obligation or proofs): %s" % (failed or log[-800:])
     gl = getattr(gen.gen_glsloptable, "last", None)
     ctx.cov["probe_table"] = gl
-    irx = ocamlbuild.build("irrun")
-    glx = ocamlbuild.build("glslrun")
+    lap("proof_step")
+    irx = build_tool("irrun", "Extract/IrRunExtract.v", ["IR", "Base", "Gen"])
+    glx = build_tool("glslrun", "Extract/GlslRunExtract.v", ["Glsl", "IR", "Base"])
     en = glslcorr.enums(tools)
+    lap("extracted_tools")
     # ---- differential validation of whole programs
     v = Validator(ctx, tools, irx, glx, en)
     nopt = ctx.scale(2, len(OPTION_SETS))
@@ -369,19 +421,20 @@ def run(ctx):
     if ctx.thorough:
         v.validate(own, OPTION_SETS, 6, own=True)
     else:
-        half = len(own) // 2
+        # quick: every program under one base profile (alternating desktop / ES) and one rotating richer option set
         extra = OPTION_SETS[2 + rot.below(len(OPTION_SETS) - 2)]
-        v.validate(own[:half], [OPTION_SETS[0], extra], 2, own=True)
-        v.validate(own[half:], [OPTION_SETS[1], extra], 2, own=True)
+        v.validate(own, [OPTION_SETS[0], OPTION_SETS[1], extra], 2, own=True)
     # layout probes (structure checks only need the compile; they run through validate with zero-cost inputs)
     v.validate([(n, s, ("small",)) for n, s in glslprogs.LAYOUT], [OPTION_SETS[0], OPTION_SETS[1]], 1, own=True)
     own_stats = dict(v.stats)
+    lap("validate_own")
     # corpus compute shaders
     corp = [(n, s, ("small",)) for n, s in nagarun.corpus()]
     if not ctx.thorough:
-        corp = ctx.rng.fork("corpus").shuffle(corp)[:60]
+        corp = ctx.rng.fork("corpus").shuffle(corp)[:40]
     vc = Validator(ctx, tools, irx, glx, en)
     vc.validate(corp, [OPTION_SETS[0], OPTION_SETS[1]] if not ctx.thorough else OPTION_SETS[:4], ctx.scale(1, 3), own=False)
+    lap("validate_corpus")
     ctx.cov["validation_own_programs"] = own_stats
     ctx.cov["validation_corpus"] = vc.stats
     ctx.cov["programs"] = own_stats["programs"] + vc.stats["programs"]
